@@ -60,8 +60,8 @@ def bulk(arg):
 
 def run(chk, b, tier):
     drv = b.apidrv()
-    total = 2 * 10 ** 6 if tier == "quick" else 10 ** 8
-    nchunks = 16 if tier == "quick" else 64
+    total = 2 * 10 ** 6 if tier == "quick" else 5 * 10 ** 8
+    nchunks = 16 if tier == "quick" else 256
     per = total // nchunks
     res = R.pmap(bulk, [(drv, R.SEED * 1000 + i, per) for i in range(nchunks)], chk=chk)
     per_prefix = {}
